@@ -91,6 +91,11 @@ ASSUMPTIONS = [
     "for all stores, delays bounded (no straggler profile), loss/partition windows over -> every store must hold "
     "every update (the chance that two of <=5 stores never exchange directly in 30 push-pull rounds is < 1e-7)",
     "LWW writes may repeat values (value domain a/b/c or one shared value); writes are identified by their timestamp",
+    "two objects may carry the same node id only in the sound ways: a snapshot (dict round trip / deep copy) of a replica "
+    "that is later caught up by / merged into the live object, a caught-up snapshot promoted to be the live object "
+    "(counters, LWW), and a replica restarted empty under its old id (counters, LWW) that issues no new update before it "
+    "has re-learned all its own former updates; restoring an old snapshot or restarting and updating at once would "
+    "reuse counter slots / OR-set tags, which is inherent to state-based CRDTs and not judged",
     "CRDTStore LWW registers are written through get_or_create(key).set(value, ts) because the store's Write path "
     "cannot pass a timestamp (store Write + default LWW factory raises TypeError; outside the statement, see report)",
 ]
@@ -104,6 +109,9 @@ EXPECTED_PROBES = [
     "probe.orset_tombstones_through_dict", "probe.store_orset_stale_state_merged_after_remove",
     "probe.store_orset_add_wins_over_concurrent_remove", "probe.lww_rewrite_same_value_newer_timestamp",
     "probe.store_settle_run_converged", "probe.store_symmetric_value_tie",
+    "probe.twin_snapshot_caught_up_with_newer_state", "probe.twin_stale_snapshot_merged_into_live",
+    "probe.twin_snapshot_promoted", "probe.twin_restarted_replica_relearns_own_updates",
+    "probe.twin_update_skipped_while_recovering",
     "fault.partition", "fault.loss", "fault.pause",
 ]
 SHRINK_SKIP = ("klass", "crdt", "variant", "n_nodes")
@@ -203,6 +211,11 @@ def gen_crdt(rng):
             continue
         if r < 0.52:
             ops.append({"t": t, "node": node, "kind": "selfmerge", "via": rng.choice(["live", "dict", "copy"])})
+            continue
+        if r < 0.66:
+            k2 = rng.choice(["snap", "snap", "snapsync", "snapsync", "snapsync", "swap", "restart"])
+            ops.append({"t": t, "node": node, "kind": k2, "via": rng.choice(["dict", "copy", "live"]),
+                        "dir": rng.choice(["catchup", "catchup", "into-live"])})
             continue
         if kind == "gcounter":
             ops.append({"t": t, "node": node, "kind": "inc", "n": rng.choice([1, 1, 2, 5, 100])})
@@ -760,6 +773,11 @@ class ReplicaNode(Entity):
         self.idx, self.rw = idx, rw
         self.crdt = rw.cls(name)
         self.seen = 0
+        self.own = 0            # updates issued by this node
+        self.need = 0           # after a restart: own updates that must be re-learned before issuing new ones
+        self.snap = None        # [object with the same node id, update set it holds]
+        self.restarted = False
+        self.promoted = False
 
     def set_clock(self, clock):
         super().set_clock(clock)
@@ -789,7 +807,8 @@ class ReplicaWorld:
         self.spec = Spec(self.kind)
         self.world = None
         self.probes = {"self_merge": 0, "chain": 0, "merges": 0, "dup": 0, "lww_tie": 0, "conc_add_rm": 0,
-                       "checks": 0, "lww_rewrite": 0, "stale_state_after_remove": 0, "add_wins": 0, "tombstone_round_trip": 0}
+                       "checks": 0, "snap": 0, "restart": 0, "snap_into_live": 0, "snap_catchup_newer": 0, "swap": 0,
+                       "update_skipped_while_recovering": 0, "resync_own": 0, "lww_rewrite": 0, "stale_state_after_remove": 0, "add_wins": 0, "tombstone_round_trip": 0}
         self.vias = set()
         self.msg_seq = 0
         self.msg_seen = {}
@@ -797,28 +816,33 @@ class ReplicaWorld:
         self.manual_ts = set()
 
     # -- oracle ----------------------------------------------------------
-    def check(self, node, where):
+    def check(self, node, where, obj=None, seen=None):
+        """Judge `obj` (default: the node's live replica) against the specification of the update set `seen`."""
         self.probes["checks"] += 1
-        got = _crdt_value(self.kind, node.crdt)
-        want = self.spec.value(node.seen)
+        crdt = node.crdt if obj is None else obj
+        seen = node.seen if obj is None else seen
+        twin = "/same-node-id-in-two-objects" if (obj is not None or node.restarted or node.promoted) else ""
+        label = node.name if obj is None else f"{node.name} (snapshot object)"
+        got = _crdt_value(self.kind, crdt)
+        want = self.spec.value(seen)
         if got != want:
-            sig, msg = _diagnose(self.kind, self.cls, node.crdt, got, want, self.spec, node.seen, where)
-            raise Violation(sig, f"replica {node.name} {msg}")
-        rt = self.cls.from_dict(node.crdt.to_dict())
-        if not (rt == node.crdt) or _crdt_value(self.kind, rt) != got:
+            sig, msg = _diagnose(self.kind, self.cls, crdt, got, want, self.spec, seen, where)
+            raise Violation(sig + twin, f"replica {label} {msg}")
+        rt = self.cls.from_dict(crdt.to_dict())
+        if not (rt == crdt) or _crdt_value(self.kind, rt) != got:
             d = "state-differs"
             if self.kind == "orset" and {repr(x) for x in got} != {repr(x) for x in rt.value} \
                     and {str(x) for x in got} == {str(x) for x in rt.value}:
                 d = "non-string-elements-become-strings"
             raise Violation(f"C18/dict-round-trip/{self.cls.__name__}/{d}",
-                            f"replica {node.name} {where}: from_dict(to_dict()) gives {_crdt_value(self.kind, rt)!r}, "
+                            f"replica {label} {where}: from_dict(to_dict()) gives {_crdt_value(self.kind, rt)!r}, "
                             f"replica holds {got!r}")
         for other in self.nodes:
-            if other is not node and other.seen == node.seen:
-                if not (other.crdt == node.crdt and node.crdt == other.crdt):
-                    raise Violation(f"C18/same-updates-equal/{self.cls.__name__}/{_eq_detail(self.kind, self.spec, node.seen)}",
-                                    f"{where}: {node.name} and {other.name} received the same updates but "
-                                    f"{node.crdt!r} != {other.crdt!r}")
+            if (other is not node or obj is not None) and other.seen == seen:
+                if not (other.crdt == crdt and crdt == other.crdt):
+                    raise Violation(f"C18/same-updates-equal/{self.cls.__name__}/{_eq_detail(self.kind, self.spec, seen)}{twin}",
+                                    f"{where}: {label} and {other.name} received the same updates but "
+                                    f"{crdt!r} != {other.crdt!r}")
 
     # -- operations ------------------------------------------------------
     def _other(self, payload):
@@ -870,6 +894,14 @@ class ReplicaWorld:
                                 f"{_crdt_value(self.kind, c)!r}")
             self.check(node, "selfmerge:")
             return None
+        if k in ("snap", "snapsync", "swap", "restart"):
+            return self._twin_op(node, k, op)
+        if node.need:
+            if (node.seen & node.need) != node.need:
+                self.probes["update_skipped_while_recovering"] += 1
+                return None     # a restarted replica must first re-learn its own former updates (else slot/tag reuse)
+            node.need = 0
+        before = node.seen
         self.updated.add(node.idx)
         if k in ("inc", "dec"):
             n = op.get("n", 1)
@@ -911,7 +943,49 @@ class ReplicaWorld:
                 node.seen |= 1 << sp.add_op({"kind": "remove", "x": x})
         else:
             raise InvalidScenario(f"op {k} for {self.kind}")
+        node.own |= node.seen & ~before
         self.check(node, "local-op:")
+        return None
+
+    def _twin_op(self, node, k, op):
+        """Schedules in which two objects carry the same node id: snapshots of a replica (dict round trip or deep
+        copy) that are later caught up by the live object's newer state (or merged back into it), promotion of a
+        caught-up snapshot, and a restart (fresh empty object under the old node id that re-syncs from its peers)."""
+        c = node.crdt
+        if k == "snap":
+            obj = copy.deepcopy(c) if op.get("via") == "copy" else self.cls.from_dict(c.to_dict())
+            node.snap = [obj, node.seen]
+            self.probes["snap"] += 1
+            return None
+        if k == "restart":
+            if self.kind == "orset":
+                return None     # an OR-set replica restarted empty would re-mint old tags (inherent, not judged)
+            node.crdt = self.cls(node.name)
+            node.need = node.own
+            node.seen = 0
+            node.snap = None
+            node.restarted = True
+            self.probes["restart"] += 1
+            return None
+        if node.snap is None:
+            return None
+        obj, sseen = node.snap
+        if k == "snapsync" and op.get("dir") == "into-live":
+            c.merge(obj)
+            node.seen |= sseen
+            self.probes["snap_into_live"] += 1
+            self.check(node, "stale-snapshot-merged:")
+            return None
+        # catch the snapshot up with the live object's state (directly or through a dict round trip)
+        if node.seen & ~sseen:
+            self.probes["snap_catchup_newer"] += 1
+        obj.merge(c if op.get("via") == "live" else self.cls.from_dict(c.to_dict()))
+        node.snap[1] = sseen = sseen | node.seen
+        self.check(node, "snapshot-catchup:", obj=obj, seen=sseen)
+        if k == "swap" and self.kind != "orset":   # (an OR-set snapshot carries a stale tag sequence number)
+            node.crdt, node.seen, node.snap, node.promoted = obj, sseen, None, True
+            self.probes["swap"] += 1
+            self.check(node, "snapshot-promoted:")
         return None
 
     def recv_state(self, node, md):
@@ -925,6 +999,8 @@ class ReplicaWorld:
         if self.kind == "orset" and md["via"] in ("dict", "dict2") and any(
                 o["kind"] == "remove" for i, o in self.spec.ops.items() if (seen >> i) & 1):
             self.probes["tombstone_round_trip"] += 1
+        if node.need and seen & node.need & ~node.seen:
+            self.probes["resync_own"] += 1
         node.crdt.merge(other)
         node.seen |= seen
         self.probes["merges"] += 1
@@ -993,6 +1069,11 @@ def run_crdt(sc):
         "probe.dup_delivered": int(pr["dup"] > 0), "probe.lww_tie_physical_logical": int(pr["lww_tie"] > 0),
         "probe.orset_concurrent_add_remove": int(pr["conc_add_rm"] > 0),
         "probe.lww_rewrite_same_value_newer_timestamp": int(pr["lww_rewrite"] > 0),
+        "probe.twin_snapshot_caught_up_with_newer_state": int(pr["snap_catchup_newer"] > 0),
+        "probe.twin_stale_snapshot_merged_into_live": int(pr["snap_into_live"] > 0),
+        "probe.twin_snapshot_promoted": int(pr["swap"] > 0),
+        "probe.twin_restarted_replica_relearns_own_updates": int(pr["resync_own"] > 0),
+        "probe.twin_update_skipped_while_recovering": int(pr["update_skipped_while_recovering"] > 0),
         "probe.orset_stale_state_merged_after_remove": int(pr["stale_state_after_remove"] > 0),
         "probe.orset_add_wins_over_concurrent_remove": int(pr["add_wins"] > 0),
         "probe.orset_tombstones_through_dict": int(pr["tombstone_round_trip"] > 0),
